@@ -64,6 +64,53 @@ CLAIMED["C20"] = dict(
     note="Trusted: f32 as R (rounding, NaN, infinities ignored); sin(2pi-y)=-sin y, cos(2pi-y)=cos y; sqrt facts; the transliteration table; Verus/Z3, Kani/CBMC. Verus gives no counterexample: on refutation a candidate search runs the real f32 code.",
     design="§4 C20")
 
+_CT = ("one generated Kani contract per loop-free world message: the real read_body / write_into_vec / size_without_header against a specification walker "
+       "emitted from an independent reading of the wowm definition, over every byte string up to the message's maximum size + 2")
+_CTNOTE = ("Trusted: Kani/CBMC, the independent wowm reader spec/wowm.py and walker runtime contracts/kani/spec_rt.rs. Scope: the 1,065 loop-free world messages "
+           "(fixed-width scalars, enums/flags, Bool, Guid, PackedGuid, DateTime, small fixed arrays, nested structs, if/else/optional) that verify within the per-harness budget "
+           "(container_costs.json; the rest are listed as excluded_for_resources); quick = changed files + seeded sample. NOT decided: messages with strings, variable/endless arrays, masks, splines, "
+           "compressed parts (a bytes-side bounded class for them is implemented but measured infeasible: >120 s each), login messages, opcode dispatch (read_opcodes). "
+           "ParseError.kind is read through a #[cfg(kani)] accessor appended to the scratch copy of errors.rs.")
+CLAIMED["C01"] = dict(
+    technique=_CT + "; clauses: canonical encodings are accepted, fully consumed, and re-encode to identical bytes; hand-written primitive codecs (packed guid, cstring, bool) under their own contracts",
+    text="Proof for the loop-free messages: for every byte string that the wowm definition makes a canonical encoding (all branches, all enumerators, numeric extremes), decoding succeeds, consumes the body, "
+         "and re-encoding yields the same bytes with size()==bytes written. Complete per message (symbolic bytes up to max size + 2), not sampled.",
+    note=_CTNOTE + " Known finding (open): Level16/Level32 values above 255 are truncated to the u8 Level type.",
+    design="§4 C01, §13")
+CLAIMED["C03"] = dict(
+    technique=_CT + "; obligations = Kani's built-in checks (panic, overflow, out-of-bounds, unwinding) on the decode path for every byte string; primitive readers total for all inputs",
+    text="Proof for the loop-free messages and the primitive readers: read_body returns Ok or Err for every byte string of every length up to max+2 (longer bodies are rejected by the size guard before any read); "
+         "no panic, arithmetic overflow or out-of-bounds access is reachable.",
+    note=_CTNOTE + " The allocation-budget clause is only covered through the primitives (sized cstring) - variable arrays are outside the loop-free class. Fixed: Bool panics, SizedCString size 0 underflow.",
+    design="§4 C03, §13")
+CLAIMED["C04"] = dict(
+    technique=_CT + "; clauses: the walker evaluates every enum-typed member at its full wire width - an undeclared value must yield Err(Enum) reporting exactly that value; fixed-size messages reject every other length",
+    text="Proof for the loop-free messages: an enum member (incl. upcast ones, nested in structs, under conditionals) carrying an undeclared value at full wire width is rejected with an enum error reporting that value; "
+         "constant-size messages accept exactly their size.",
+    note=_CTNOTE + " Unknown-opcode rejection (read_opcodes dispatch) is not yet under contract. Fixed: upcast enums were truncated before validation (133 sites).",
+    design="§4 C04, §13")
+CLAIMED["C09"] = dict(
+    technique="Verus: one interval obligation per generated world message (1,428) over the wowm length formula (branch selectors, optional presence, string lengths, array counts as parameters) against the size-guard literals re-read from each read_inner; Kani clause `canonical encoding never rejected with InvalidSize` on the loop-free messages; packed-guid size contract",
+    text="Proof (unbounded in counts and lengths): for every message without masks/splines/compressed parts, every length the definition can produce within the frame limit lies inside the guard compiled into its decoder, "
+         "and constant-size guards equal the formula; struct intervals used for arrays are proved separately (callee contracts) and the sum-of-elements step is a proved lemma.",
+    note="Trusted: Verus/Z3, wowm reader. Assumed limits (read from the generator source each run): string sizes (CSTRING 256, SIZED_CSTRING 4+8000, STRING 257) and the client message buffer 10240. "
+         "Skipped: 31 messages with UpdateMask/AuraMask/splines/achievement arrays/AddonArray/compressed parts. The generator's own interval code (create_sizes) and the IR/doc copies of the numbers are not under contract - the guard literals are. "
+         "Known findings (open): 8 Wrath server messages with endless arrays are capped at min+65535.",
+    design="§4 C09, §13")
+CLAIMED["C13"] = dict(
+    technique="Kani: (a) every primitive-typed generated accessor (~3,600 over three expansions) against the published update-field table with the update-mask core replaced by recording stubs; (b) bounded contracts on the hand-written core (bit bookkeeping, typed set/get, wire form, size); Verus history lemma",
+    text="Accessors: proof (complete, modular) that each setter/getter addresses the table offset with the table type and that non-builder setters track dirtiness. Core: BOUNDED stand-ins (masks <= 3 blocks, one or two map entries) for array_set/reset/fill, typed round trips, written form == count + (header & dirty) blocks + present-and-dirty values, reported size == bytes written, decode(write) returns the written fields. "
+         "A Verus lemma lifts the per-operation contracts to arbitrary histories (last write wins; invariant preserved).",
+    note="Trusted: Kani/CBMC, Verus/Z3, the published table update-mask.md. The core contracts are bounded (CBMC does not scale to larger BTreeMaps; Verus rejects the code) and are reported as bounded, not proved. "
+         "Not covered: enum/struct/index-typed accessors (unit_bytes_0/1, visible_item, skill_info, field_inv ...), UpdateMask::read kind selection. Fixed: get_shorts returned the halves swapped.",
+    design="§4 C13, §13")
+CLAIMED["C14"] = dict(
+    technique="Kani contract per login family x protocol version on the hand-written collective conversions and read_protocol/write_protocol; the version-N value is every value decodable from symbolic bytes by version N's own reader",
+    text="Proof for fixed-layout families (complete): lift-then-lower is the identity, write_protocol emits exactly the bytes of version N's writer, read_protocol accepts/rejects and consumes exactly as version N's reader and yields the lifted value. "
+         "Families with strings/vectors are bounded by the buffer size and reported as bounded.",
+    note="Trusted: Kani/CBMC, derived PartialEq/Clone. quick tier: fixed-layout families; thorough adds the bounded ones within budget. expect_*_message_protocol helpers and async variants not under contract.",
+    design="§4 C14, §13")
+
 NA = {
     "C06": "quantifies over delivery schedules of async readers; neither verifier handles async state machines within reach (Kani+tokio: no result in 10 min for a 4-byte message) and the chunking behaviour is a contract of tokio/async-std, not of this code",
     "C07": "a statement about every input program of a text-emitting generator; no function contract can refer to the meaning of the emitted Rust text (compiler verification); the corpus instance is C01",
